@@ -44,6 +44,7 @@ func c01(c *core.Check) {
 	c01RangeIndexSlices(c)
 	c01FloatLoops(c)
 	c01GrowingPlaceholders(c)
+	c01AttrTag(c)
 	c01OrderedSlices(c)
 
 	p := c.Prog
